@@ -3,6 +3,7 @@
 package mimetype
 
 import (
+	"bytes"
 	ejson "encoding/json"
 	"fmt"
 	"strings"
@@ -29,6 +30,17 @@ type c08Case struct {
 
 // c08HigherPriority reports whether a format that is tried before json accepts h.
 func c08HigherPriority(h []byte, limit uint32) string {
+	// an exception needs (a) a format documented to outrank JSON that accepts the header and
+	// (b) one of the literals through which a JSON text can really satisfy such a signature
+	planted := false
+	for _, p := range jPlanted {
+		if bytes.Contains(h, []byte(p)) {
+			planted = true
+		}
+	}
+	if !planted {
+		return ""
+	}
 	return vfEarlierSibling([]*MIME{text, json}, h, limit)
 }
 
